@@ -67,6 +67,10 @@ pub struct TaskSpec {
     pub stream: u16,
     pub cap: u16,
     pub route: Route,
+    /// for the token route: 0 = plain `with_cancel`, 1 = `op.with_personality(p).with_cancel(t)`,
+    /// 2 = `op.with_cancel(t).with_personality(p)` (a personality is registered on io_uring, ignored on poll)
+    #[serde(default)]
+    pub pers: u8,
 }
 
 #[derive(Debug, Clone, Serialize, Deserialize)]
@@ -148,6 +152,7 @@ struct Lab {
     spawned: Vec<bool>,
     stepped_since_spawn: Vec<bool>,
     spawn_time: Vec<Option<Instant>>,
+    personality: u16,
 }
 
 fn build(case: &RtCase) -> std::io::Result<Lab> {
@@ -181,8 +186,10 @@ fn build(case: &RtCase) -> std::io::Result<Lab> {
         sig_tx.push(Some(tx));
         sig_rx.push(Some(futures_util::FutureExt::shared(rx)));
     }
+    let personality = if case.iour { rt.register_personality().unwrap_or(0) } else { 0 };
     let n = case.tasks.len();
     Ok(Lab {
+        personality,
         rt,
         ends,
         peers,
@@ -217,6 +224,8 @@ impl Lab {
         };
         let cap = mono_range(spec.cap, 1, 48);
         let what = spec.what;
+        let pers = spec.pers % 3;
+        let personality = self.personality;
         let end = self.ends[mono_ix(spec.stream, 3)].clone();
         let listener = self.listener.clone();
         let fut = async move {
@@ -245,7 +254,11 @@ impl Lab {
             };
             let out = match route {
                 Route::Plain => op.await,
-                Route::Token(_) => op.with_cancel(token.unwrap()).await,
+                Route::Token(_) => match pers {
+                    1 if personality != 0 || true => op.with_personality(personality).with_cancel(token.unwrap()).await,
+                    2 => op.with_cancel(token.unwrap()).with_personality(personality).await,
+                    _ => op.with_cancel(token.unwrap()).await,
+                },
                 Route::TimeoutMs(ms) => match compio_runtime::time::timeout(Duration::from_millis(5 + (ms % 40) as u64), op).await {
                     Ok(o) => o,
                     Err(_) => Out::TimedOut,
@@ -550,6 +563,9 @@ fn run(case: &RtCase) -> Outcome {
         }
     }
     for t in &case.tasks {
+        if t.pers % 3 != 0 && matches!(t.route, Route::Token(_)) {
+            labels.push(format!("token+personality:{}", t.pers % 3));
+        }
         labels.push(format!("route:{}", match t.route { Route::Plain => "plain", Route::Token(_) => "token", Route::TimeoutMs(_) => "timeout", Route::DropOn(_) => "drop" }));
     }
     if case.tasks.iter().any(|t| matches!(t.route, Route::TimeoutMs(_))) && case.tasks.len() >= 2 && labels.iter().any(|l| l == "outcome:timed-out") {
@@ -565,7 +581,7 @@ fn run(case: &RtCase) -> Outcome {
 
 fn strategy() -> impl Strategy<Value = RtCase> + Clone {
     let route = prop_oneof![3 => Just(Route::Plain), 4 => (0u8..2).prop_map(Route::Token), 2 => any::<u8>().prop_map(Route::TimeoutMs), 3 => (0u8..2).prop_map(Route::DropOn)];
-    let task = (prop_oneof![4 => Just(What::Read), 1 => Just(What::Accept)], any::<u16>(), any::<u16>(), route).prop_map(|(what, stream, cap, route)| TaskSpec { what, stream, cap, route });
+    let task = (prop_oneof![4 => Just(What::Read), 1 => Just(What::Accept)], any::<u16>(), any::<u16>(), route, prop_oneof![3 => Just(0u8), 1 => Just(1u8), 1 => Just(2u8)]).prop_map(|(what, stream, cap, route, pers)| TaskSpec { what, stream, cap, route, pers });
     let step = prop_oneof![
         5 => Just(RStep::Spawn),
         3 => (any::<u16>(), any::<u16>()).prop_map(|(stream, n)| RStep::Feed { stream, n }),
@@ -596,7 +612,7 @@ fn main() {
         "promptness is bounded progress: a task whose cancellation route fired must finish within 60 runtime steps and 1 s without its event",
         "timeouts are judged only after their deadline has clearly passed (timers being late is C09's business, never early)",
     ];
-    let rd = |stream: u16, route: Route| TaskSpec { what: What::Read, stream, cap: 30000, route };
+    let rd = |stream: u16, route: Route| TaskSpec { what: What::Read, stream, cap: 30000, route, pers: 0 };
     p.regressions = vec![
         // the shape of compio/tests/runtime.rs::cancel_token_read: token fired before the task ever ran
         ("token-fired-before-first-poll", RtCase { iour: true, cap_ix: 3, interval_ix: 2, tasks: vec![rd(0, Route::Token(0))], steps: vec![RStep::Spawn, RStep::CancelToken(0)] }),
@@ -607,7 +623,7 @@ fn main() {
                 iour: true,
                 cap_ix: 0,
                 interval_ix: 0,
-                tasks: vec![rd(0, Route::Token(0)), rd(0, Route::Plain), TaskSpec { what: What::Accept, stream: 0, cap: 0, route: Route::Token(0) }],
+                tasks: vec![rd(0, Route::Token(0)), rd(0, Route::Plain), TaskSpec { what: What::Accept, stream: 0, cap: 0, route: Route::Token(0), pers: 1 }],
                 steps: vec![RStep::Spawn, RStep::Spawn, RStep::Spawn, RStep::Step { block: false }, RStep::CancelToken(0)],
             },
         ),
